@@ -994,6 +994,12 @@ impl Interpreter {
             }
         }
 
+        // A run that failed leaves nothing behind: the frames it never unwound, the orders
+        // it issued and the contexts it left waiting go with it (as on the step() path)
+        if result.is_err() {
+            self.abort_active_execution();
+        }
+
         result
     }
 
